@@ -46,12 +46,18 @@ static void runOne(Case &c, const Sig &s, const Bytes &docBytes, int hd, unsigne
     int res = KSI_UNKNOWN_ERROR; int resultCode = -1, errorCode = -1; bool verdictOk = false;
     switch (api) {
     case API_VERIFIER: { KSI_VerificationContext vc; KSI_VerificationContext_init(&vc, ctx); vc.signature = sig; vc.documentHash = dh; vc.docAggrLevel = level; KSI_PolicyVerificationResult *r = nullptr;
+        if (split == 1) { // a long-lived context: verified once, its temporary data released, then verified again with the members the caller had set - the second verdict is judged
+            KSI_PolicyVerificationResult *r0 = nullptr; KSI_SignatureVerifier_verify(policyNo(pol), &vc, &r0); KSI_PolicyVerificationResult_free(r0); KSI_VerificationContext_clean(&vc); vc.signature = sig; c.cls("context:verified-cleaned-verified-again"); }
         res = KSI_SignatureVerifier_verify(policyNo(pol), &vc, &r); if (res == KSI_OK && r) { resultCode = r->finalResult.resultCode; errorCode = r->finalResult.errorCode; verdictOk = resultCode == KSI_VER_RES_OK; } KSI_PolicyVerificationResult_free(r); KSI_VerificationContext_clean(&vc); break; }
     case API_WITH_POLICY: res = KSI_Signature_verifyWithPolicy(sig, dh, level, policyNo(pol), nullptr); verdictOk = res == KSI_OK; break;
     case API_WITH_POLICY_CTX: if (split) { KSI_VerificationContext vc; KSI_VerificationContext_init(&vc, ctx); vc.extendingAllowed = 1;
+        KSI_Signature *other = nullptr;
         if (split == 1) { vc.docAggrLevel = level; res = KSI_Signature_verifyWithPolicy(sig, dh, 0, policyNo(pol), &vc); }
-        else { vc.documentHash = dh; res = KSI_Signature_verifyWithPolicy(sig, nullptr, level, policyNo(pol), &vc); }
-        verdictOk = res == KSI_OK; vc.documentHash = nullptr; KSI_VerificationContext_clean(&vc); c.cls(split == 1 ? "ctx-split:level-in-context" : "ctx-split:hash-in-context"); break; }
+        else if (split == 2) { vc.documentHash = dh; res = KSI_Signature_verifyWithPolicy(sig, nullptr, level, policyNo(pol), &vc); }
+        else { // the context's signature member still points to ANOTHER signature (left over from an earlier verification): the signature passed to the call is the one that is verified
+            Sig s2 = s; s2.chains[0].inputHash[1] ^= 0x5a; relink(s2); Bytes e2 = s2.enc(); HeapBuf in2(e2); if (KSI_Signature_parseWithPolicy(ctx, in2.p, in2.n, KSI_VERIFICATION_POLICY_EMPTY, nullptr, &other) != KSI_OK) other = nullptr;
+            vc.signature = other; res = KSI_Signature_verifyWithPolicy(sig, dh, level, policyNo(pol), &vc); vc.signature = nullptr; }
+        verdictOk = res == KSI_OK; vc.documentHash = nullptr; KSI_VerificationContext_clean(&vc); KSI_Signature_free(other); c.cls(split == 1 ? "ctx-split:level-in-context" : split == 2 ? "ctx-split:hash-in-context" : "ctx:signature-member-points-to-another-signature"); break; }
         else { KSI_VerificationContext vc; KSI_VerificationContext_init(&vc, ctx); vc.extendingAllowed = 1; res = KSI_Signature_verifyWithPolicy(sig, dh, level, policyNo(pol), &vc); verdictOk = res == KSI_OK; KSI_VerificationContext_clean(&vc); break; }
     case API_WITH_POLICY_CTX_PREFILLED: { // the context still carries the matching hash (e.g. from an earlier call); explicit arguments take precedence
         KSI_VerificationContext vc; KSI_VerificationContext_init(&vc, ctx); KSI_DataHash *stale = nullptr; KSI_DataHash_fromImprint(ctx, want.data(), want.size(), &stale); vc.documentHash = stale; vc.docAggrLevel = 0;
@@ -105,10 +111,10 @@ void harness_case(Dec &d, Case &c) {
         if (other && res == KSI_OK) VF_FAIL(c, "C02:wrong-input-accepted:GEN-01:verifyDocument", "verifyDocument accepted another document");
         c.cls(other ? "deviation:other-document" : "no-deviation"); c.cls("api:verifyDocument"); c.nontrivial = other; c.desc = std::string("verifyDocument ") + (other ? "other" : "same") + " doc len=" + num((long long)doc2.size()) + " alg=" + num(s.docHash()[0]); return;
     }
-    int split = api == API_WITH_POLICY_CTX ? (int)d.pick(3) : 0;   // drawn last: older replay files decode to 0
+    int split = api == API_WITH_POLICY_CTX ? (int)d.pick(4) : (api == API_VERIFIER ? (int)d.pick(2) : 0);   // drawn last: older replay files decode to 0
     runOne(c, s, docBytes, hd, bit, level, pol, api, &d, split);
     c.nontrivial = hd != HD_EQUAL && hd != HD_ABSENT ? true : (level > 0);
-    c.desc = std::string(kApiName[api]) + "/" + kPolName[pol] + " dev=" + kDevName[hd] + " bit=" + num(bit % 64) + " level=" + std::to_string(level) + " L0=" + num(l0) + (s.hasRfc ? " rfc" : "") + " alg=" + num(s.docHash()[0]) + (split ? (split == 1 ? " level-in-context" : " hash-in-context") : "");
+    c.desc = std::string(kApiName[api]) + "/" + kPolName[pol] + " dev=" + kDevName[hd] + " bit=" + num(bit % 64) + " level=" + std::to_string(level) + " L0=" + num(l0) + (s.hasRfc ? " rfc" : "") + " alg=" + num(s.docHash()[0]) + (split ? (api == API_VERIFIER ? " second-verification-after-clean" : split == 1 ? " level-in-context" : split == 2 ? " hash-in-context" : " context-signature-member-stale") : "");
 }
 
 // exhaustive: every single-bit flip of the document hash of a few signatures, under the internal policy, through three API variants
